@@ -1,5 +1,6 @@
 // ---- shims for U-ROWS (C06) ----
 use std::hash::Hash;
+use std::collections::HashMap;
 #[verifier::external_body] pub struct TypeVar { _p: u32 }
 #[verifier::external_body] pub struct Prim { _p: u64 }
 #[verifier::external_body] pub struct Constructor { _p: u64 }
@@ -336,7 +337,8 @@ pub open spec fn int_lhs<T, F: Fn(T) -> Prim>(f: F, lty: Ty) -> spec_fn(T, core:
 
 // ---- compile_tuple_case: a tuple scrutinee is taken apart into fresh variables, its sub-patterns become columns on them ----
 impl Gensym { #[verifier::external_body] pub fn gensym(&self, prefix: &str) -> (r: String) { unimplemented!() } }
-#[verifier::external_body] pub fn core_eunit() -> (r: core::Expr) ensures !(r is ELet) { unimplemented!() }
+pub uninterp spec fn eunit_spec() -> core::Expr;                       // core::eunit(): the unit literal (an EPrim)
+#[verifier::external_body] pub fn core_eunit() -> (r: core::Expr) ensures r == eunit_spec(), !(r is ELet) { unimplemented!() }
 #[verifier::external_body] pub fn string_eq(a: &String, b: &String) -> (r: bool) ensures r == (a@ == b@) { unimplemented!() }
 // `let names[i] = bvar.i in let names[i+1] = bvar.(i+1) in .. inner`: component i is bound to the i-th fresh variable, with the i-th component type
 pub open spec fn proj_chain(names: Seq<String>, bvar: Variable, typs: Seq<Ty>, ty: Ty, i: int, inner: core::Expr) -> core::Expr
@@ -413,6 +415,87 @@ pub open spec fn unit_rows(ins: Seq<Row>, v: Seq<char>, outs: Seq<Row>) -> bool 
 pub open spec fn unit_case_of(r: core::Expr, rows: Seq<Row>, bvar: Variable, rs: Seq<Row>) -> bool {
     unit_rows(rows, bvar.name@, rs)
     && (r matches core::Expr::EMatch { expr, arms, default, ty: _ } && *expr == var_core(bvar) && default is None && arms@.len() == 1
-        && !(arms@[0].lhs is ELet) && arms@[0].body == rows_core(rs, bvar.ty))
+        && arms@[0].lhs == eunit_spec() && arms@[0].body == rows_core(rs, bvar.ty))
 }
 #[verifier::external_body] pub fn vec_one_arm(a: core::Arm) -> (r: Vec<core::Arm>) ensures r@ == seq![a] { unimplemented!() }   // vec![a]
+
+// ---- compile_enum_case / compile_struct_case: the fields of a constructor are bound to the case's fresh variables ----
+// `let vars[i] = bvar.<ctor>.field_i in ..`: field i goes to the i-th variable, at that variable's type (asc: first field outermost;
+// desc: last field outermost — the field reads are pure and the variables fresh, so either nesting is right)
+pub open spec fn get_let(vars: Seq<Variable>, bvar: Variable, ctor: Constructor, ty: Ty, i: int, body: core::Expr) -> core::Expr {
+    core::Expr::ELet { name: vars[i].name, value: Box::new(core::Expr::EConstrGet { expr: Box::new(var_core(bvar)), constructor: ctor, field_index: i as usize, ty: vars[i].ty }),
+                       body: Box::new(body), ty }
+}
+pub open spec fn get_chain(vars: Seq<Variable>, bvar: Variable, ctor: Constructor, ty: Ty, i: int, inner: core::Expr) -> core::Expr
+    decreases vars.len() - i,
+{
+    if i < 0 || i >= vars.len() { inner } else { get_let(vars, bvar, ctor, ty, i, get_chain(vars, bvar, ctor, ty, i + 1, inner)) }
+}
+pub open spec fn get_chain_desc(vars: Seq<Variable>, bvar: Variable, ctor: Constructor, ty: Ty, k: int, inner: core::Expr) -> core::Expr
+    decreases k,
+{
+    if k <= 0 || k > vars.len() { inner } else { get_let(vars, bvar, ctor, ty, k - 1, get_chain_desc(vars, bvar, ctor, ty, k - 1, inner)) }
+}
+pub open spec fn is_get_chain(e: core::Expr, vars: Seq<Variable>, bvar: Variable, ctor: Constructor, ty: Ty, inner: core::Expr) -> bool {
+    e == get_chain(vars, bvar, ctor, ty, 0, inner) || e == get_chain_desc(vars, bvar, ctor, ty, vars.len() as int, inner)
+}
+pub proof fn lemma_get_chain_tail(vars: Seq<Variable>, bvar: Variable, ctor: Constructor, ty: Ty, i: int, hole: core::Expr, inner: core::Expr)
+    requires !(hole is ELet), 0 <= i <= vars.len(),
+    ensures replace_tail(get_chain(vars, bvar, ctor, ty, i, hole), inner) == get_chain(vars, bvar, ctor, ty, i, inner),
+    decreases vars.len() - i,
+{
+    if i < vars.len() { lemma_get_chain_tail(vars, bvar, ctor, ty, i + 1, hole, inner); }
+}
+pub proof fn lemma_get_chain_desc_tail(vars: Seq<Variable>, bvar: Variable, ctor: Constructor, ty: Ty, k: int, hole: core::Expr, inner: core::Expr)
+    requires !(hole is ELet), 0 <= k <= vars.len(),
+    ensures replace_tail(get_chain_desc(vars, bvar, ctor, ty, k, hole), inner) == get_chain_desc(vars, bvar, ctor, ty, k, inner),
+    decreases k,
+{
+    if k > 0 { lemma_get_chain_desc_tail(vars, bvar, ctor, ty, k - 1, hole, inner); }
+}
+// the two lemmas as one fact about either nesting
+pub proof fn lemma_is_get_chain_tail(e: core::Expr, vars: Seq<Variable>, bvar: Variable, ctor: Constructor, ty: Ty, hole: core::Expr, inner: core::Expr)
+    requires !(hole is ELet), is_get_chain(e, vars, bvar, ctor, ty, hole),
+    ensures is_get_chain(replace_tail(e, inner), vars, bvar, ctor, ty, inner),
+{
+    lemma_get_chain_tail(vars, bvar, ctor, ty, 0, hole, inner);
+    lemma_get_chain_desc_tail(vars, bvar, ctor, ty, vars.len() as int, hole, inner);
+}
+impl VClone for Variable { #[verifier::external_body] fn vclone(&self) -> (r: Self) { unimplemented!() } }
+impl Constructor { #[verifier::external_body] pub fn is_struct(&self) -> (r: bool) { unimplemented!() } }
+// compile_struct_case's rewritten columns: a column on the struct variable is replaced, in place, by one column per field pattern
+// (field pattern i against the i-th field variable; zip: as many as there are of both)
+pub open spec fn sub_field_cols(vars: Seq<Variable>, args: Seq<Pat>, n: int) -> Seq<Column>
+    decreases n,
+{
+    if n <= 0 { Seq::<Column>::empty() } else { sub_field_cols(vars, args, n - 1).push(Column { var: vars[n - 1].name, pat: args[n - 1] }) }
+}
+pub open spec fn min_len(a: int, b: int) -> int { if a <= b { a } else { b } }
+pub open spec fn struct_cols(cols: Seq<Column>, v: Seq<char>, vars: Seq<Variable>, n: int) -> Seq<Column>
+    decreases n,
+{
+    if n <= 0 { Seq::<Column>::empty() }
+    else {
+        let c = cols[n - 1];
+        let pre = struct_cols(cols, v, vars, n - 1);
+        if c.var@ == v { pre + sub_field_cols(vars, c.pat->PConstr_args@, min_len(vars.len() as int, c.pat->PConstr_args@.len() as int)) } else { pre.push(c) }
+    }
+}
+pub open spec fn struct_rows(ins: Seq<Row>, v: Seq<char>, vars: Seq<Variable>, outs: Seq<Row>) -> bool {
+    outs.len() == ins.len()
+    && forall|k: int| 0 <= k < ins.len() ==> (#[trigger] outs[k]).body == ins[k].body && outs[k].columns@ == struct_cols(ins[k].columns@, v, vars, ins[k].columns@.len() as int)
+}
+pub open spec fn struct_case_of(r: core::Expr, rows: Seq<Row>, bvar: Variable, vars: Seq<Variable>, ctor: Constructor, ty: Ty, rs: Seq<Row>) -> bool {
+    struct_rows(rows, bvar.name@, vars, rs) && is_get_chain(r, vars, bvar, ctor, ty, rows_core(rs, ty))
+}
+
+// ---- compile_enum_case: one ConstructorCase per variant, case i being the variant with index i ----
+impl EnumConstructor { pub uninterp spec fn variant_name(&self) -> TastIdent; pub uninterp spec fn type_name_of(&self) -> TastIdent; }
+// Constructor::Enum(common::EnumConstructor { type_name, variant, index })
+#[verifier::external_body]
+pub fn mk_enum_constructor(type_name: TastIdent, variant: TastIdent, index: usize) -> (r: Constructor)
+    ensures r.enum_part() matches Some(e) && e.idx() == index && e.variant_name() == variant && e.type_name_of() == type_name,
+{ unimplemented!() }
+impl VClone for TastIdent { #[verifier::external_body] fn vclone(&self) -> (r: Self) { unimplemented!() } }
+#[verifier::external_body] pub fn substitute_ty_params(ty: &Ty, subst: &HashMap<String, Ty>) -> (r: Ty) { unimplemented!() }
+
